@@ -174,6 +174,10 @@ struct Gate {
     parked: bool,
     release: bool,
     armed: bool,
+    /// second park point (drop_during_merge_reload): the user thread right after it read .managed.json
+    armed2: bool,
+    parked2: bool,
+    zombie_created: u32,
 }
 
 /// the merge thread is parked at its first `open_write` (after it advanced the deletes of its
@@ -208,12 +212,39 @@ fn run_gated(tracer: &Tracer, rng: &mut StdRng, scenario: &str, tag: Value) {
         w.exec(&json!({"op":"del","pred":{"k":"id","id":4}}));
         w.exec(&json!({"op":"commit"}));
     }
-    let st = Arc::new((Mutex::new(Gate { parked: false, release: false, armed: true }), Condvar::new()));
+    let st = Arc::new((Mutex::new(Gate { parked: false, release: false, armed: true, armed2: false, parked2: false, zombie_created: 0 }), Condvar::new()));
     let st2 = st.clone();
     // stale_end_merge parks the UPDATER thread inside the end_merge task, right before it replaces
     // meta.json; every other scenario parks the merge thread at its first open_write
     let stale = scenario == "stale_end_merge";
     w.dir.set_gate(Some(Arc::new(move |op: &OpInfo, after: bool| {
+        // drop_during_merge_reload: the new writer's creation reads .managed.json; the user thread is parked
+        // right after that read, the merge thread of the dropped writer is released and registers / creates
+        // the files of its merged segment meanwhile
+        if op.role == "main" && op.op == "atomic_read" && op.path == ".managed.json" && after {
+            let (m, cv) = &*st2;
+            let mut g = m.lock().unwrap();
+            if g.armed2 {
+                g.armed2 = false;
+                g.parked2 = true;
+                g.release = true;
+                cv.notify_all();
+                let t0 = std::time::Instant::now();
+                while g.zombie_created == 0 && t0.elapsed() < Duration::from_millis(300) {
+                    let (g2, _) = cv.wait_timeout(g, Duration::from_millis(10)).unwrap();
+                    g = g2;
+                }
+            }
+            return;
+        }
+        if op.role == "merge" && op.op == "open_write" && after {
+            let (m, cv) = &*st2;
+            let mut g = m.lock().unwrap();
+            if g.parked2 {
+                g.zombie_created += 1;
+                cv.notify_all();
+            }
+        }
         let here = if stale {
             op.role == "updater" && op.op == "atomic_write" && op.path == "meta.json" && !after
         } else if predeleted {
@@ -353,6 +384,28 @@ fn run_gated(tracer: &Tracer, rng: &mut StdRng, scenario: &str, tag: Value) {
             w.exec(&json!({"op":"add","id":n0 + 1,"t":"c","v":0}));
             w.exec(&json!({"op":"commit"}));
         }
+        "drop_during_merge_reload" => {
+            // as drop_during_merge, but the merge thread goes on while the NEW writer is being created: it
+            // registers the files of its merged segment right after the new writer read the managed list
+            drop(fut.take());
+            w.exec(&json!({"op":"drop_writer"}));
+            st.0.lock().unwrap().armed2 = true;
+            w.exec(&json!({"op":"new_writer"}));
+            w.exec(&json!({"op":"add","id":n0 + 1,"t":"c","v":0}));
+            w.exec(&json!({"op":"commit"}));
+            // let the merge thread of the dropped writer finish (its result is discarded)
+            let mut last = w.dir.opcount();
+            let mut stable = 0;
+            let t0 = std::time::Instant::now();
+            while stable < 10 && t0.elapsed() < Duration::from_secs(3) {
+                std::thread::sleep(Duration::from_millis(10));
+                let now = w.dir.opcount();
+                stable = if now == last { stable + 1 } else { 0 };
+                last = now;
+            }
+            w.exec(&json!({"op":"gc"}));
+            w.exec(&json!({"op":"gc"}));
+        }
         "predeleted_delete_commit" => {
             w.exec(&json!({"op":"del","pred":{"k":"id","id":2}}));
             w.exec(&json!({"op":"add","id":n0 + 1,"t":"c","v":0}));
@@ -397,11 +450,15 @@ fn run_gated(tracer: &Tracer, rng: &mut StdRng, scenario: &str, tag: Value) {
         w.exec(&json!({"op":"reload"}));
     }
     w.dir.set_gate(None);
+    if scenario == "drop_during_merge_reload" {
+        let g = st.0.lock().unwrap();
+        tracer.emit(json!({"ev":"schedule","name":"new writer parked right after it read .managed.json while the dropped writer's merge thread registers its files","realised":g.parked2,"zombie_registered_meanwhile":g.zombie_created}));
+    }
     tracer.emit(json!({"ev":"schedule","name":if stale { "updater parked inside end_merge before the meta.json replacement; rollback + commit by the new writer in between".to_string() } else { format!("merge thread parked at its first {} during {scenario}", if predeleted { "open_read" } else { "open_write" }) },"realised":realised}));
     w.exec(&json!({"op":"observe"}));
     w.exec(&json!({"op":"wait_merges"}));
     tantivy::verif::set_sink(None);
-    tracer.emit(json!({"ev":"end","listing":w.dir.listing(),"locks":w.dir.lock_files()}));
+    tracer.emit(json!({"ev":"end","listing":w.dir.listing(),"locks":w.dir.lock_files(),"managed":w.managed()}));
 }
 
 fn main() {
@@ -418,7 +475,7 @@ fn main() {
             }
         }
         "gated" => {
-            let scen = ["delete_commit", "rollback", "delete_all_commit", "two_commits", "fresh_writer_delete", "wait_with_intruder", "stale_end_merge", "delete_commit_fault", "uncommitted_delete_commit", "drop_during_merge", "predeleted_delete_commit"];
+            let scen = ["delete_commit", "rollback", "delete_all_commit", "two_commits", "fresh_writer_delete", "wait_with_intruder", "stale_end_merge", "delete_commit_fault", "uncommitted_delete_commit", "drop_during_merge", "predeleted_delete_commit", "drop_during_merge_reload"];
             let only = a.get("only", "");
             for r in 0..runs {
                 let s = if only.is_empty() { scen[(r as usize) % scen.len()] } else { only.as_str() };
